@@ -58,6 +58,21 @@ pub open spec fn gs_inv<M: Math, A: MassMatrixAdaptStrategy<M>>(s: GlobalStrateg
     &&& strat_budget(s.step_size) <= draw + 1
 }
 
+/// GlobalStrategy::init (set_position): called on a freshly constructed strategy
+pub open spec fn gs_init_pre<M: Math, A: MassMatrixAdaptStrategy<M>>(s: GlobalStrategy<M, A>) -> bool {
+    gs_inv(s, 0) && s.mass_matrix_adapt.fg().len() == 0 && s.mass_matrix_adapt.bg().len() == 0 && strat_budget(s.step_size) == 1
+}
+/// it establishes the invariant `adapt` needs at draw 0 (the start point sits in both estimator windows),
+/// initialises the transformation and runs the step-size search; its errors propagate
+pub open spec fn gs_init_post<M: Math, A: MassMatrixAdaptStrategy<M>>(s0: GlobalStrategy<M, A>, s1: GlobalStrategy<M, A>,
+    h0: TransformedHamiltonian<M, A::Transformation>, h1: TransformedHamiltonian<M, A::Transformation>, r: Result<(), NutsError>) -> bool
+{
+    &&& s1.num_tune == s0.num_tune && s1.early_end == s0.early_end && s1.final_step_size_window == s0.final_step_size_window
+    &&& s1.options == s0.options && s1.tuning == s0.tuning && s1.has_initial_mass_matrix == s0.has_initial_mass_matrix
+    &&& (r is Ok ==> gs_inv(s1, 0) && h1.trans().id == h0.trans().id + 1
+            && s1.mass_matrix_adapt.fg().len() == 1 && s1.mass_matrix_adapt.bg().len() == 1)
+}
+
 pub open spec fn gs_adapt_pre<M: Math, A: MassMatrixAdaptStrategy<M>>(s: GlobalStrategy<M, A>, draw: u64) -> bool {
     gs_inv(s, draw) && draw < 0xffff_ffff_ffff_fff0
 }
